@@ -136,21 +136,22 @@ theorem touch_getLease (s : State) (c k : Cid) : getLease (touch s c).table k = 
           simp [this]
       rw [hp]
 
-/-! ### the pinned lists -/
+/-! ### the pinned lists (plain comments on purpose: a failing `rfl` is reported at the first line of the declaration) -/
 
-/-- every listed function is translated … -/
+-- every listed function is translated …
 theorem srv_translated_reviewed : dhcpSrvTranslated = ["getClientID", "Handler_takenByOther", "Handler_inUse", "Handler_available",
     "Handler_allocIPOffer", "Handler_findOrCreate", "Handler_delete", "Handler_freeLeases", "Handler_MinuteTicker",
     "Handler_handleDiscover", "Handler_handleRequest", "Handler_handleDecline", "Handler_handleRelease"] := rfl
 
-/-- … except `ProcessPacket`, refused at its first construct without a form (the `packet.Frame` parameter: frame parsing,
-    `IsValid`, `ParseOptions` and the transmission are C02 / C08 / C12's business; its dispatch on the message type is
-    `Model.step` on the decoded op, covered by the step correspondence only) -/
+-- … except `ProcessPacket`, refused at its first construct without a form (the `packet.Frame` parameter: frame parsing,
+-- `IsValid`, `ParseOptions` and the transmission are C02 / C08 / C12's business; its dispatch on the message type is
+-- `Model.step` on the decoded op, covered by the step correspondence only)
 theorem srv_untranslated_reviewed : dhcpSrvUntranslated = [
   "Handler_ProcessPacket: line +0: parameter type github.com/irai/packet.Frame"] := rfl
 
-/-- the statements without a model counterpart (logging, locks, side traffic, the lease-file save, session effects that
-    are environment ops of the model, the unmodelled fields Name / OfferExpiry / Count), in source order -/
+-- the statements without a model counterpart (logging, locks, side traffic, the lease-file save, session effects that
+-- are environment ops of the model - each with the modelled statement it stands before: the model reads the session
+-- oracles in the pre-state -, the unmodelled fields Name / OfferExpiry / Count), in source order
 theorem srv_ignored_reviewed : dhcpSrvIgnored = [
   "Handler_allocIPOffer: log: if Logger.IsInfo() { Logger.Msg(\"offer\").IP(\"ip\", lease.IPOffer).Write() }",
   "Handler_allocIPOffer: log: if Logger.IsInfo() { Logger.Msg(\"offer\").IP(\"ip\", lease.IPOffer).Write() }",
@@ -169,14 +170,14 @@ theorem srv_ignored_reviewed : dhcpSrvIgnored = [
   "Handler_handleDiscover: unmodelled: lease.OfferExpiry = now.Add(time.Second * 5)",
   "Handler_handleDiscover: log: if Logger.IsInfo() { Logger.Msg(\"discover options received\").Sprintf(\"options\", options).W…",
   "Handler_handleDiscover: side traffic: if h.mode == ModeSecondaryServer || (h.mode == ModeSecondaryServerNice && lease.subnet.Sta…",
-  "Handler_handleDiscover: session effect (environment op of the model): h.session.SetDHCPv4IPOffer(lease.Addr.MAC, lease.IPOffer, packet.NameEntry{Type: module, N…",
+  "Handler_handleDiscover: session effect (environment op of the model), before `return ret`: h.session.SetDHCPv4IPOffer(lease.Addr.MAC, lease.IPOffer, packet.NameEntry{Type: module, N…",
   "Handler_handleDiscover: log: if Logger.IsInfo() { Logger.Msg(\"discover offer OK\").ByteArray(\"xid\", p.XId()).ByteArray(\"…",
   "Handler_handleRequest: unmodelled: nameEntry := packet.NameEntry{Type: module, Name: string(options[packet.DHCP4OptionHostNam…",
   "Handler_handleRequest: log: if Logger.IsInfo() { Logger.Msg(\"request rcvd\").ByteArray(\"xid\", p.XId()).ByteArray(\"clien…",
   "Handler_handleRequest: log: if Logger.IsDebug() { Logger.Msg(\"request parameters\").ByteArray(\"xid\", p.XId()).IP(\"ciadd…",
   "Handler_handleRequest: log: Logger.Msg(\"invalid request IP\").ByteArray(\"xid\", p.XId()).String(\"optionIP\", string(optio…",
   "Handler_handleRequest: log: Logger.Msg(\"request NACK - select is for another server\").ByteArray(\"xid\", p.XId()).IP(\"se…",
-  "Handler_handleRequest: session effect (environment op of the model): h.session.DHCPv4Update(p.CHAddr(), reqIP, nameEntry)",
+  "Handler_handleRequest: session effect (environment op of the model), before `return nil`: h.session.DHCPv4Update(p.CHAddr(), reqIP, nameEntry)",
   "Handler_handleRequest: log: Logger.Msg(\"ignore select for another server\").ByteArray(\"xid\", p.XId()).IP(\"serverIP\", se…",
   "Handler_handleRequest: log: Logger.Msg(\"request NACK - select invalid parameters\").ByteArray(\"xid\", p.XId()).ByteArray…",
   "Handler_handleRequest: log: if Logger.IsInfo() { Logger.Msg(\"request ACK - select\").ByteArray(\"xid\", p.XId()).ByteArra…",
@@ -185,11 +186,11 @@ theorem srv_ignored_reviewed : dhcpSrvIgnored = [
   "Handler_handleRequest: unmodelled: if tmp, ok := options[packet.DHCP4OptionHostName]; ok { lease.Name = string(tmp) }",
   "Handler_handleRequest: unmodelled: if Logger.IsDebug() { l := Logger.Msg(\"request ack options recv\").ByteArray(\"xid\", p.XId()…",
   "Handler_handleRequest: lease file: h.saveConfig(h.filename)",
-  "Handler_handleRequest: session effect (environment op of the model): h.session.DHCPv4Update(lease.Addr.MAC, lease.Addr.IP, nameEntry)",
+  "Handler_handleRequest: session effect (environment op of the model), before `return ret`: h.session.DHCPv4Update(lease.Addr.MAC, lease.Addr.IP, nameEntry)",
   "Handler_handleRequest: log: Logger.Msg(\"request NACK - renew invalid or expired lease\").ByteArray(\"xid\", p.XId()).IP(\"…",
   "Handler_handleRequest: log: Logger.Msg(\"request NACK - renew address in use by another host\").ByteArray(\"xid\", p.XId()…",
   "Handler_handleRequest: log: if Logger.IsInfo() { Logger.Msg(\"request ACK - renewing\").ByteArray(\"xid\", p.XId()).IP(\"ip…",
-  "Handler_handleRequest: session effect (environment op of the model): h.session.DHCPv4Update(p.CHAddr(), reqIP, nameEntry)",
+  "Handler_handleRequest: session effect (environment op of the model), before `if lease.State == StateFree { Logger.Msg(\"client l…`: h.session.DHCPv4Update(p.CHAddr(), reqIP, nameEntry)",
   "Handler_handleRequest: log: Logger.Msg(\"client lease does not exist\").ByteArray(\"xid\", p.XId()).IP(\"ip\", reqIP).Write(…",
   "Handler_handleRequest: side traffic (goroutine): go h.forceDecline(dupBytes(clientID), h.net1.DefaultGW, dupMAC(p.CHAddr()), reqIP, dupByte…",
   "Handler_handleRequest: log: Logger.Msg(\"request NACK - rebooting\").ByteArray(\"xid\", p.XId()).IP(\"ip\", reqIP).Write()",
